@@ -12,11 +12,12 @@ CONSTANTS
   Modes = {"all"}
   MaxLoss = 1
   MaxDup = 1
-  MaxPopCalls = 2
+  MaxPopCalls = 1
   MaxMidFlush = 1
-  Eagers = {FALSE, TRUE}
+  Eagers = {FALSE}
   Holds = {0}
   HoldFors = {0}
+  Situations = TRUE
   Algo = "ring"
   Impl = "asis"
   Sampling = FALSE
